@@ -572,6 +572,11 @@ func (w *twkbWriter) writePointArray(numPoints int, coords []float64) {
 }
 
 func (w *twkbWriter) writeAdditionalHeaders() {
+	if w.isEmpty {
+		// The metadata header of an empty geometry only has the "is empty"
+		// bit set, so no size or bbox header may follow.
+		return
+	}
 	// These are written in this order so that the size of the
 	// bbox is included in the size computation.
 	if w.hasBBox {
